@@ -708,6 +708,12 @@ impl<'a> Sess<'a> {
                                     }
                                 }
                                 Err(e) => {
+                                    // write_all repeats a piece whose write was interrupted (what Write::write_all and every caller
+                                    // following the std::io conventions does)
+                                    if name == "write_all" && fatfs::IoError::is_interrupted(&e) && calls < 1000 {
+                                        calls += 1;
+                                        continue;
+                                    }
                                     err = Some(err_json(&e));
                                     break;
                                 }
